@@ -157,8 +157,8 @@ fn expr(m: M, e: &Expr) -> Expr {
         Expr::Index { obj, key } => Expr::Index { obj: Box::new(expr(m, obj)), key: Box::new(expr(m, key)) },
         Expr::Field { obj, name } => Expr::Field { obj: Box::new(expr(m, obj)), name: name.clone() },
         Expr::Call { f, args, sugar } => Expr::Call { f: Box::new(expr(m, f)), args: exprs(m, args), sugar: if m.erase { CallSugar::Parens } else { *sugar } },
-        Expr::MethodCall { obj, name, args, sugar } => {
-            Expr::MethodCall { obj: Box::new(expr(m, obj)), name: name.clone(), args: exprs(m, args), sugar: if m.erase { CallSugar::Parens } else { *sugar } }
+        Expr::MethodCall { obj, name, types, args, sugar } => {
+            Expr::MethodCall { obj: Box::new(expr(m, obj)), name: name.clone(), types: types.as_ref().map(|t| type_args(m, t)), args: exprs(m, args), sugar: if m.erase { CallSugar::Parens } else { *sugar } }
         }
         Expr::Function { attrs: a, func: f } => Expr::Function { attrs: attrs(m, a), func: Box::new(func(m, f)) },
         Expr::Paren(inner) => {
